@@ -37,6 +37,8 @@ func runC04(c *an.Ctx) {
 	// round 8
 	r04m(c)
 	r04n(c)
+	// round 9
+	passThrough(c, "R04o", "cacheproxy.GetDefaults/GetVars are plain pass-throughs (no map shared between environments)", []string{"GetDefaults", "GetVars"}, "all environments then share one map of configuration-store values: the detector list one environment writes is read by the next, which is accepted with a detector that is still held")
 }
 
 func r04a(c *an.Ctx) {
